@@ -24,16 +24,20 @@ CONFIGS = {
     "C12": {
         "quick": [("Asm.tla", "Asm_cf_q.cfg", 3), ("Asm.tla", "Asm_data_q.cfg", 2),
                   ("Asm.tla", "Asm_enc_q.cfg", 2), ("Asm.tla", "Asm_cfi_q.cfg", 1.5),
-                  ("Asm.tla", "Asm_ops_q.cfg", 1.5)],
+                  ("Asm.tla", "Asm_ops_q.cfg", 1.5), ("Asm.tla", "Asm_str_q.cfg", 3),
+                  ("Asm.tla", "Asm_strc_q.cfg", 1)],
         "thorough": [("Asm.tla", "Asm_cf_t.cfg", 3), ("Asm.tla", "Asm_data_t.cfg", 2),
                      ("Asm.tla", "Asm_enc_t.cfg", 2), ("Asm.tla", "Asm_cfi_t.cfg", 1.5),
-                     ("Asm.tla", "Asm_ops_t.cfg", 1.5)],
+                     ("Asm.tla", "Asm_ops_t.cfg", 1.5), ("Asm.tla", "Asm_str_t.cfg", 3),
+                     ("Asm.tla", "Asm_strc_t.cfg", 1)],
     },
     "C13": {
         "quick": [("Asm.tla", "Asm_sym_q.cfg", 2), ("Asm.tla", "Asm_chunk_q.cfg", 2),
-                  ("Asm.tla", "Asm_chunk2_q.cfg", 2), ("AsmRw.tla", "AsmRw_q.cfg", 0)],
+                  ("Asm.tla", "Asm_chunk2_q.cfg", 2), ("Asm.tla", "Asm_asg_q.cfg", 2),
+                  ("Asm.tla", "Asm_strc_q.cfg", 1), ("AsmRw.tla", "AsmRw_q.cfg", 0)],
         "thorough": [("Asm.tla", "Asm_sym_t.cfg", 2), ("Asm.tla", "Asm_chunk_t.cfg", 2),
                      ("Asm.tla", "Asm_chunk2_t.cfg", 2), ("Asm.tla", "Asm_mini5_t.cfg", 1),
+                     ("Asm.tla", "Asm_asg_t.cfg", 2), ("Asm.tla", "Asm_strc_t.cfg", 1),
                      ("AsmRw.tla", "AsmRw_t.cfg", 0)],
     },
 }
@@ -44,8 +48,8 @@ RWX_MAX = {"quick": 2000, "thorough": 12000}
 ABI_TARGETS = [("x64", "elf", "att"), ("x64", "pe", "intel"), ("ia32", "pe", "att"),
                ("arm64", "elf", "att"), ("mips32", "elf", "att")]
 OPS_KINDS = ("ldlit", "pg", "lo", "got", "gotlo")
-SAMPLE = {"C12": {"quick": 4000, "thorough": 60000},
-          "C13": {"quick": 3000, "thorough": 40000}}
+SAMPLE = {"C12": {"quick": 4500, "thorough": 60000},
+          "C13": {"quick": 3500, "thorough": 40000}}
 MC_TIMEOUT = {"quick": 900, "thorough": 2400}   # (a timeout is a machinery failure, never a verdict)
 WORKERS = int(os.environ.get("VERIF_TLC_WORKERS", "16"))
 
